@@ -202,7 +202,11 @@ def _decimal_as_text(decimal_value, precision=DEFAULT_PRECISION):
     assert isinstance(decimal_value, decimal.Decimal)
     assert precision >= 0
 
-    return "%.*f" % (precision, decimal_value)
+    try:
+        return "%.*f" % (precision, decimal_value)
+    except OverflowError:
+        # The precision exceeds what "%f" can take, so the scientific notation is all there is.
+        return str(decimal_value)
 
 
 class Range(object):
